@@ -243,6 +243,27 @@ fn c10_prove_side_positions_7_9() { prove_side_positions_range(7, 9); }
 #[kani::unwind(70)]
 fn c10_prove_side_positions_10_12() { prove_side_positions_range(10, 12); }
 
+// NOTE (seeds C10-2 / C11-1): a harness `c10_prove_prefers_fresh_nodes` (7-leaf tree whose storage holds a
+// stale node at the position of the tree's own join node) was written to pin the lookup order of
+// prove() (scratch before storage).  CBMC does not finish it in 25 minutes because root_node()
+// inserts into a hashbrown map, so it is not part of any check; prove()'s node fetching stays
+// outside the contracts (listed under not_covered).
+
+//@ props=C10 tier=quick class=bounded(n<=6) -- O-C10.4 for every n <= 6 and i < n the side positions walked by prove (leaf to root, root removed) are the RFC 6962 audit-path sibling subtrees
+#[kani::proof]
+#[kani::unwind(70)]
+fn c10_prove_side_positions_1_6() { prove_side_positions_range(1, 6); }
+
+//@ props=C10 tier=thorough class=bounded(n<=12) -- O-C10.4 side positions, n = 7..=9
+#[kani::proof]
+#[kani::unwind(70)]
+fn c10_prove_side_positions_7_9() { prove_side_positions_range(7, 9); }
+
+//@ props=C10 tier=thorough class=bounded(n<=12) -- O-C10.4 side positions, n = 10..=12
+#[kani::proof]
+#[kani::unwind(70)]
+fn c10_prove_side_positions_10_12() { prove_side_positions_range(10, 12); }
+
 // ---- O-C10.5 / O-C11.4: prove() takes freshly computed (scratch) nodes before persisted ones -----
 // A tree that was reset or loaded at an earlier leaf count sits on storage that may hold a node of a
 // *larger* tree at the position of one of its own unbalanced join nodes.  The proof must carry the
